@@ -451,6 +451,9 @@ def release_rule(row):
         if released[p] and d["ltail"]["h"] < released[p][-1] + 1:
             fails.append("step %d: %s %s has local commitment height %d but the secret of height %d "
                          "was already released" % (i, p, what, d["ltail"]["h"], released[p][-1]))
+        if (d.get("revstate") or {}).get("store_ok") is False:
+            fails.append("step %d: %s %s lost revocation secrets of the peer (remote height %d)"
+                         % (i, p, what, d["disk"]["remote_h"]))
 
     for i, st in enumerate(row["steps"]):
         op, ex = st["op"], st.get("extra") or {}
@@ -560,7 +563,7 @@ def rejected_no_change(row):
         op = st["op"]
         rejected = st["res"] != "ok" and (op[0] in ("add", "fee", "sign", "revoke") + RESOLVE
                                           or (op[0] == "deliver" and st["res"] == "no_pending"))
-        observe = op[0] == "crash"
+        observe = op[0] in ("crash", "side")
         for p in PARTIES:
             if not (isinstance(st.get(p), dict) and "ltail" in st[p]):
                 continue
@@ -575,35 +578,66 @@ def rejected_no_change(row):
 # C02: what a restart would see
 
 
+def _reload_vs_live(rel, live, who):
+    """A channel restored from disk must show exactly the signed part of the live
+    state: same local tail, remote tail, pending remote tip, heights and revocation
+    state; no local tip; log counters cut back to what signatures cover."""
+    fails = []
+    for k in ("ltail", "rtail", "rtip", "disk", "revstate"):
+        if k in live and rel.get(k) != live[k]:
+            fails.append("%s.%s restored as %s, live %s" % (who, k, rel.get(k), live[k]))
+    if rel["ltip"] is not None:
+        fails.append("%s restored with a local tip" % who)
+    if rel["own_idx"] != last_remote(live)["ours"]:
+        fails.append("%s.own_idx restored as %d, signed own updates = %d"
+                     % (who, rel["own_idx"], last_remote(live)["ours"]))
+    if rel["peer_idx"] != live["ltail"]["theirs"]:
+        fails.append("%s.peer_idx restored as %d, acked peer updates = %d"
+                     % (who, rel["peer_idx"], live["ltail"]["theirs"]))
+    if rel["own_htlc"] > live["own_htlc"] or rel["peer_htlc"] > live["peer_htlc"]:
+        fails.append("%s restored HTLC counters exceed the live ones" % who)
+    if (rel.get("revstate") or {}).get("store_ok") is False:
+        fails.append("%s restored revocation store cannot reproduce the last revoked secret" % who)
+    return fails
+
+
+def _side_before(row, i, p):
+    """Description of the most recent side write of p at or before step i (for messages)."""
+    for j in range(i, -1, -1):
+        st = row["steps"][j]
+        if st["op"][0] == "side" and st["op"][1] == p and st["op"][2] not in ("refresh", "refetch"):
+            return " [last side write of %s: step %d %s stale_by=%s]" % (
+                p, j, st["op"][2], (st.get("extra") or {}).get("stale_by"))
+    return ""
+
+
 def reload_consistent(row):
-    """A channel restored from p's database (crash observation) shows exactly the
-    signed part of the live state: same local tail, same remote tail and pending
-    remote tip, no local tip, log counters cut back to what signatures cover."""
+    """What a restart sees (crash observation: second object restored from p's database;
+    cut: both channels restored after the prefix deliveries, compared with the dumps of
+    the live objects taken just before) is exactly the signed part of the live state.
+    This also covers the `side` writers: a metadata write through a stale OpenChannel
+    instance must not roll back anything the state machine persisted."""
     fails = []
     n = 0
     for i, st in enumerate(row["steps"]):
-        if st["op"][0] != "crash" or not _has_dumps(st):
-            continue
-        p = st["op"][1]
-        rel = (st.get("extra") or {}).get("reloaded")
-        if not rel:
-            fails.append("step %d: reload of %s failed: %s" % (i, p, (st.get("extra") or {}).get("err")))
-            continue
-        n += 1
-        live = st[p]
-        for k in ("ltail", "rtail", "rtip", "disk"):
-            if rel[k] != live[k]:
-                fails.append("step %d: reloaded %s.%s = %s differs from live %s" % (i, p, k, rel[k], live[k]))
-        if rel["ltip"] is not None:
-            fails.append("step %d: reloaded %s has a local tip" % (i, p))
-        if rel["own_idx"] != last_remote(live)["ours"]:
-            fails.append("step %d: reloaded %s.own_idx=%d, signed own updates=%d"
-                         % (i, p, rel["own_idx"], last_remote(live)["ours"]))
-        if rel["peer_idx"] != live["ltail"]["theirs"]:
-            fails.append("step %d: reloaded %s.peer_idx=%d, acked peer updates=%d"
-                         % (i, p, rel["peer_idx"], live["ltail"]["theirs"]))
-        if rel["own_htlc"] > live["own_htlc"] or rel["peer_htlc"] > live["peer_htlc"]:
-            fails.append("step %d: reloaded %s HTLC counters exceed the live ones" % (i, p))
+        ex = st.get("extra") or {}
+        if st["op"][0] == "crash" and _has_dumps(st):
+            p = st["op"][1]
+            rel = ex.get("reloaded")
+            if not rel:
+                fails.append("step %d: reload of %s failed: %s%s" % (i, p, ex.get("err"),
+                                                                      _side_before(row, i, p)))
+                continue
+            n += 1
+            for f in _reload_vs_live(rel, st[p], p):
+                fails.append("step %d crash: %s%s" % (i, f, _side_before(row, i, p)))
+        if st["op"][0] == "cut" and ex.get("pre_reload") and ex.get("reloaded"):
+            for p in PARTIES:
+                if not ex["reloaded"].get(p):
+                    continue
+                n += 1
+                for f in _reload_vs_live(ex["reloaded"][p], ex["pre_reload"][p], p):
+                    fails.append("step %d cut: %s%s" % (i, f, _side_before(row, i, p)))
     reload_consistent.reloads = n
     return fails
 
@@ -622,6 +656,31 @@ def logs_ordered(row):
                 if len(fails) > 3:
                     return fails
     return fails
+
+
+def side_harmless(row):
+    """`side` ops (metadata writers of other subsystems, invoked on a stale OpenChannel
+    instance of the live channel) succeed and leave both live channels untouched; their
+    effect on disk is judged by reload_consistent / release_rule at the next reload."""
+    fails = []
+    prev = {p: row["init"][p] for p in PARTIES}
+    n = 0
+    for i, st in enumerate(row["steps"]):
+        if st["op"][0] == "side":
+            n += 1
+            if st["res"] != "ok":
+                fails.append("step %d %s: %s" % (i, st["op"], st["res"]))
+            for p in PARTIES:
+                if _has_dumps(st) and st[p] != prev[p]:
+                    fails.append("step %d %s changed the live channel of %s" % (i, st["op"], p))
+        for p in PARTIES:
+            if isinstance(st.get(p), dict) and "ltail" in st[p]:
+                prev[p] = st[p]
+    side_harmless.side_ops = n
+    return fails
+
+
+side_harmless.side_ops = 0
 
 
 def drained(row):
@@ -668,6 +727,7 @@ PREDICATES = [
     ("no_errors", no_errors),
     ("rejected_no_change", rejected_no_change),
     ("reload_consistent", reload_consistent),
+    ("side_harmless", side_harmless),
     ("logs_ordered", logs_ordered),
     ("drained", drained),
     ("corpus_expect", corpus_expect),
